@@ -15,11 +15,21 @@
 //   big <algo> <sv-hex|ctorsv-hex|fnsv-hex> <expected> <len> <a> <b>
 //       message of `len` bytes (may exceed 4 GiB) with byte i = (a*i + b) & 0xff, passed as ONE
 //       tlx::string_view to process(string_view) / X(string_view) / xxx_hex(string_view).  No trace.
+//   bigz <algo> <ptr-hex|fn-hex|ctor-hex|sv-hex|fnsv-hex|ctorsv-hex> <expected> <len>
+//       sparse message of `len` >= 64 bytes in a MAP_NORESERVE mapping (no real memory): byte i = i+1 for
+//       i < 3, byte i = 0x40 + (len - i) for the last 16 bytes, zero elsewhere.  ptr/fn/ctor forms pass it
+//       in ONE call with a 32-bit size (len < 2^32), the sv forms as one tlx::string_view (any len).
+//   sipz <plain|sse2|auto> <key hex> <len>
+//       SipHash of the same sparse message (len may exceed 4 GiB); the oracle is an independent
+//       byte-wise SipHash-2-4 inside this harness (`ref_siphash24`, validated against the Python
+//       reference on every `sip` line), since 4 GiB cannot be hashed in Python.
 //   sip <plain|sse2|auto|dk|dkc|sv> <expected 16 hex> <key align> <key hex> <msg align> <message hex|->
 //       key and message are placed at the given offsets (0..15) of 16-byte aligned heap blocks that
 //       end exactly at their last byte.  dk/dkc/sv use the built-in default key (key must be 00..0f).
 #include <cstring>
+#include <map>
 #include <memory>
+#include <sys/mman.h>
 
 #define private public
 #include <tlx/digest/md5.hpp>
@@ -148,6 +158,46 @@ struct Placed {
     ~Placed() { free(base); }
 };
 
+// ---------------------------------------------------------------- sparse big messages
+struct SparseMsg {
+    uint8_t* p;
+    size_t len;
+    explicit SparseMsg(size_t n) : p(nullptr), len(n) {
+        void* m = mmap(nullptr, n, PROT_READ | PROT_WRITE, MAP_PRIVATE | MAP_ANONYMOUS | MAP_NORESERVE, -1, 0);
+        if (m == MAP_FAILED) return;
+        p = static_cast<uint8_t*>(m);
+        for (size_t i = 0; i < 3; ++i) p[i] = uint8_t(i + 1);
+        for (size_t i = n - 16; i < n; ++i) p[i] = uint8_t(0x40 + (n - i));
+    }
+    ~SparseMsg() { if (p) munmap(p, len); }
+};
+
+// independent SipHash-2-4 (paper §2), byte-wise loads; oracle for messages too long for Python
+static inline uint64_t rotl64(uint64_t x, int b) { return (x << b) | (x >> (64 - b)); }
+static uint64_t ref_siphash24(const uint8_t* key, const uint8_t* m, uint64_t len) {
+    auto le64 = [](const uint8_t* q) { uint64_t v = 0; for (int i = 7; i >= 0; --i) v = (v << 8) | q[i]; return v; };
+    uint64_t k0 = le64(key), k1 = le64(key + 8);
+    uint64_t v0 = k0 ^ 0x736f6d6570736575ULL, v1 = k1 ^ 0x646f72616e646f6dULL;
+    uint64_t v2 = k0 ^ 0x6c7967656e657261ULL, v3 = k1 ^ 0x7465646279746573ULL;
+    auto round = [&]() {
+        v0 += v1; v1 = rotl64(v1, 13); v1 ^= v0; v0 = rotl64(v0, 32);
+        v2 += v3; v3 = rotl64(v3, 16); v3 ^= v2;
+        v0 += v3; v3 = rotl64(v3, 21); v3 ^= v0;
+        v2 += v1; v1 = rotl64(v1, 17); v1 ^= v2; v2 = rotl64(v2, 32);
+    };
+    uint64_t w = len / 8;
+    for (uint64_t i = 0; i < w; ++i) {
+        uint64_t mi;                        // little-endian host (x86-64): plain 8-byte copy; the tail and the
+        std::memcpy(&mi, m + 8 * i, 8);     // key use the byte-wise le64, and every `sip` line re-validates this
+        v3 ^= mi; round(); round(); v0 ^= mi;
+    }
+    uint64_t b = (len & 0xff) << 56;
+    for (uint64_t i = 0; i < len % 8; ++i) b |= uint64_t(m[8 * w + i]) << (8 * i);
+    v3 ^= b; round(); round(); v0 ^= b;
+    v2 ^= 0xff; round(); round(); round(); round();
+    return v0 ^ v1 ^ v2 ^ v3;
+}
+
 int main(int argc, char** argv) {
     (void)argc; (void)argv;
     std::string line;
@@ -206,6 +256,62 @@ int main(int argc, char** argv) {
                 vh::viol("digest-mismatch " + al + " " + form + " big len=" + t[4] + " got=" + result + " want=" + t[3]);
             continue;
         }
+        if (t[0] == "bigz" && t.size() == 5) {
+            unsigned long long len = std::strtoull(t[4].c_str(), nullptr, 10);
+            const std::string& al = t[1];
+            const std::string& form = t[2];
+            bool svform = form == "sv-hex" || form == "fnsv-hex" || form == "ctorsv-hex";
+            bool ptrform = form == "ptr-hex" || form == "fn-hex" || form == "ctor-hex";
+            if (!(svform || ptrform) || len < 64 || len > (1ull << 36) || (ptrform && len >= (1ull << 32)) ||
+                !(al == "md5" || al == "sha1" || al == "sha256" || al == "sha512")) { vh::answer("bad-op"); continue; }
+            SparseMsg msg{size_t(len)};
+            if (!msg.p) { vh::answer("bad-op"); continue; }
+            tlx::string_view sv(reinterpret_cast<const char*>(msg.p), size_t(len));
+            const void* ptr = msg.p;
+            std::uint32_t sz = std::uint32_t(len);
+            std::string result;
+#define C14_BIGZ(CLS, low)                                                                        \
+            if (form == "ptr-hex") { tlx::CLS d; d.process(ptr, sz); result = d.digest_hex(); }   \
+            else if (form == "fn-hex") result = tlx::low##_hex(ptr, sz);                           \
+            else if (form == "ctor-hex") result = tlx::CLS(ptr, sz).digest_hex();                  \
+            else if (form == "sv-hex") { tlx::CLS d; d.process(sv); result = d.digest_hex(); }    \
+            else if (form == "fnsv-hex") result = tlx::low##_hex(sv);                              \
+            else result = tlx::CLS(sv).digest_hex();
+            if (al == "md5") { C14_BIGZ(MD5, md5) }
+            else if (al == "sha1") { C14_BIGZ(SHA1, sha1) }
+            else if (al == "sha256") { C14_BIGZ(SHA256, sha256) }
+            else { C14_BIGZ(SHA512, sha512) }
+#undef C14_BIGZ
+            vh::answer(result);
+            if (result != t[3])
+                vh::viol("digest-mismatch " + al + " " + form + " sparse len=" + t[4] + " got=" + result + " want=" + t[3]);
+            continue;
+        }
+        if (t[0] == "sipz" && t.size() == 4) {
+            Bytes key;
+            unsigned long long len = std::strtoull(t[3].c_str(), nullptr, 10);
+            const std::string& v = t[1];
+            if (!unhex(t[2], key) || key.size() != 16 || len < 64 || len > (1ull << 36) ||
+                !(v == "plain" || v == "sse2" || v == "auto")) { vh::answer("bad-op"); continue; }
+#if !defined(__SSE2__)
+            if (v == "sse2") { vh::answer("bad-op"); continue; }
+#endif
+            SparseMsg msg{size_t(len)};
+            if (!msg.p) { vh::answer("bad-op"); continue; }
+            static std::map<std::pair<std::string, unsigned long long>, uint64_t> ref_cache;
+            std::pair<std::string, unsigned long long> ck(t[2], len);
+            if (!ref_cache.count(ck)) ref_cache[ck] = ref_siphash24(key.data(), msg.p, len);
+            uint64_t want = ref_cache[ck], r = 0;
+            if (v == "plain") r = tlx::siphash_plain(key.data(), msg.p, size_t(len));
+#if defined(__SSE2__)
+            else if (v == "sse2") r = tlx::siphash_sse2(key.data(), msg.p, size_t(len));
+#endif
+            else r = tlx::siphash(key.data(), msg.p, size_t(len));
+            vh::answer(hexword(r));
+            if (r != want)
+                vh::viol("siphash-mismatch " + v + " sparse len=" + t[3] + " got=" + hexword(r) + " want=" + hexword(want));
+            continue;
+        }
         if (t[0] == "sip" && t.size() == 7) {
             Bytes key, msg;
             int ka = std::atoi(t[3].c_str()), ma = std::atoi(t[5].c_str());
@@ -228,6 +334,8 @@ int main(int argc, char** argv) {
             else if (v == "sv" && defkey) r = tlx::siphash(tlx::string_view(reinterpret_cast<const char*>(pm.p), msg.size()));
             else { vh::answer("bad-op"); continue; }
             std::string res = hexword(r);
+            // the harness' own reference (oracle of the sipz lines) must agree with the Python reference
+            if (hexword(ref_siphash24(key.data(), msg.data(), msg.size())) != t[2]) res += " HARNESS-REFERENCE-DISAGREES";
             vh::answer(res);
             if (res != t[2])
                 vh::viol("siphash-mismatch " + v + " len=" + std::to_string(msg.size()) + " keyalign=" + t[3] + " msgalign=" + t[5] +
